@@ -153,7 +153,8 @@ def sp_same_seq(se, a, b):
 
 CSPEC = {"unchanged": sp_unchanged, "INV": sp_inv, "P": sp_field(PF), "W": sp_field(WF_), "KV": sp_field(KVF), "same_seq": sp_same_seq,
          "npts": lambda se, o: o.fields[KVF].fields["npts"], "deg": lambda se, o: o.fields[KVF].fields["degree"],
-         "kv_npts": lambda se, k: k.fields["npts"], "kv_deg": lambda se, k: k.fields["degree"]}
+         "kv_npts": lambda se, k: k.fields["npts"], "kv_deg": lambda se, k: k.fields["degree"],
+         "rows": lambda se, m: Num(m.r, True), "cols": lambda se, m: Num(m.c, True)}
 ATOMIC = {"*": ["unchanged(self)"]}
 
 
@@ -303,6 +304,8 @@ def mk_set_weights(assume_no_roots):
         eng.raise_exc(st, "ValueError", refused, node.lineno, exits)
         o.fields[WF_] = Seq(v.arr, v.n, False)
         return NoneV()
+    if assume_no_roots:
+        h_set_weights.assumption = "A11"
     return h_set_weights
 
 
@@ -443,10 +446,8 @@ def setup_apply(P, W):
         r, c = z3.Int("matrix_rows"), z3.Int("matrix_cols")
         arr = z3.Array("matrix", z3.IntSort(), z3.ArraySort(z3.IntSort(), z3.RealSort()))
         st.env["matrix"] = E.Mat(arr, r, c)
-        # precondition of apply (the callers' obligation): the matrix maps the old control points to those of the new knot vector
-        # (a curve without control points and weights ignores the matrix: no requirement then)
-        if P or W:
-            st.assume(z3.And(r == new.fields["npts"].z, c == st.env["self"].fields[KVF].fields["npts"].z))
+        # NO precondition on the matrix: apply is public, and a matrix of the wrong shape must be refused with the curve unchanged (C15; D34)
+        st.assume(z3.And(r >= 0, c >= 0))
     return setup
 
 
@@ -467,7 +468,10 @@ def apply_contract(P, W):
         spec=CSPEC, calls=APPLY_CALLS, loops=APPLY_LOOPS if (P and W) else {},
         ensures=["INV(self)", "npts(self) == kv_npts(newknotvector)", "deg(self) == kv_deg(newknotvector)",
                  "iff(is_none(P(self)), is_none(old(P(self))))", "iff(is_none(W(self)), is_none(old(W(self))))"],
-        raises={"ZeroDivisionError": None} if (P and W) else {}, exc_ensures=ATOMIC, canary="npts(self) == kv_npts(newknotvector) + 1")
+        # ValueError exactly for a matrix that does not map npts(self) values to npts(newknotvector) values (with A11 for the weights of P=W=1)
+        raises=dict({"ZeroDivisionError": None} if (P and W) else {},
+                    **({"ValueError": "rows(matrix) != kv_npts(newknotvector) or cols(matrix) != npts(self)"} if (P or W) else {})),
+        exc_ensures=ATOMIC, canary="npts(self) == kv_npts(newknotvector) + 1")
 
 
 ALL += [(apply_contract(P, W), "curves", "BaseCurve.apply", None) for P in (0, 1) for W in (0, 1)]
@@ -543,8 +547,11 @@ def h_apply_call(eng, st, args, kw, node, exits):
     if not isinstance(m, E.Mat):
         raise E.Unsupported("apply with %r" % (m,))
     if isinstance(c.fields[PF], Seq) or isinstance(c.fields[WF_], Seq):
-        eng.vc(st, m.r == kv.fields["npts"].z, "call:apply:rows(matrix)==npts(newknotvector)@L%d" % node.lineno, node.lineno)
-        eng.vc(st, m.c == c.fields[KVF].fields["npts"].z, "call:apply:cols(matrix)==npts(self)@L%d" % node.lineno, node.lineno)
+        # apply itself refuses a matrix of the wrong shape with ValueError (proved: apply_contract); the library's own callers must never get there:
+        # the shape is an obligation of the caller (then the ValueError exit of the proved contract is excluded, which the conformance check confirms)
+        for goal, what in ((m.r == kv.fields["npts"].z, "rows(matrix)==npts(newknotvector)"), (m.c == c.fields[KVF].fields["npts"].z, "cols(matrix)==npts(self)")):
+            eng.vc(st, goal, "call:apply:%s@L%d" % (what, node.lineno), node.lineno)
+            st.assume(goal)
     if isinstance(c.fields[PF], Seq) and isinstance(c.fields[WF_], Seq):
         eng.raise_exc(st, "ZeroDivisionError", E.fresh("zero_control_weight", z3.BoolSort()), node.lineno, exits)
     c.fields[KVF] = kv
@@ -799,6 +806,10 @@ def h_method(name, P_and_W_only_zero_division=True):
         """self.degree_increase(t) / self.degree_decrease(t) by the contracts proved below: ValueError (ZeroDivisionError for weighted curves in
         degree_increase) with the curve unchanged, otherwise INV and degree +- t."""
         c, t = args[0], args[1]
+        tol = kw.get("tolerance", args[2] if len(args) > 2 else None)
+        if name == "degree_decrease" and isinstance(tol, Num):
+            # proved (degree_decrease_contract, tolerance a number): AssertionError only when tolerance < 0; found missing here by the conformance check
+            eng.raise_exc(st, "AssertionError", z3.And(tol.real() < 0, E.fresh("negative_tolerance", z3.BoolSort())), node.lineno, exits)
         eng.raise_exc(st, "ValueError", E.fresh(name + "_refused", z3.BoolSort()), node.lineno, exits)
         if name == "degree_increase" and isinstance(c.fields[PF], Seq) and isinstance(c.fields[WF_], Seq):
             eng.raise_exc(st, "ZeroDivisionError", E.fresh("zero_control_weight", z3.BoolSort()), node.lineno, exits)
@@ -933,13 +944,16 @@ CLEAN_INV = ["INV(self)", "deg(self) >= 0 and npts(self) >= deg(self) + 1", "npt
              "iff(is_none(P(self)), is_none(old(P(self))))", "iff(is_none(W(self)), is_none(old(W(self))))"]
 
 
+KIND_KEPT = ["iff(is_none(P(self)), is_none(old(P(self))))", "iff(is_none(W(self)), is_none(old(W(self))))"]
+
+
 def knot_clean_contract(P, W):
     return Contract(
         "curves.Curve.knot_clean[P=%d,W=%d]" % (P, W), setup=curve_state(P, W),
         params={"self": "obj:BaseCurve", "tolerance": "real", "nodes": "none"}, spec=CSPEC, calls=CLEAN_CALLS,
         loops={0: dict(invariant=["0 <= it0 and it0 <= len_it0"] + CLEAN_INV, decreases="len_it0 - it0"),
                1: dict(invariant=CLEAN_INV, decreases="npts(self) + deg(self)")},          # each successful removal lowers npts + degree: the inner loop terminates
-        ensures=["INV(self)", "npts(self) + deg(self) <= old(npts(self)) + old(deg(self))", "tolerance >= 0"],
+        ensures=["INV(self)", "npts(self) + deg(self) <= old(npts(self)) + old(deg(self))", "tolerance >= 0"] + KIND_KEPT,
         raises={"AssertionError": "tolerance < 0"}, exc_ensures=ATOMIC, canary="npts(self) + deg(self) > old(npts(self)) + old(deg(self))")
 
 
@@ -948,7 +962,7 @@ def degree_clean_contract(P, W):
         "curves.Curve.degree_clean[P=%d,W=%d]" % (P, W), setup=curve_state(P, W),
         params={"self": "obj:BaseCurve", "tolerance": "real"}, spec=CSPEC, calls=CLEAN_CALLS,
         loops={0: dict(invariant=[x if "npts(self) + deg(self) <=" not in x else "deg(self) <= old(deg(self))" for x in CLEAN_INV], decreases="deg(self)")},         # each successful reduction lowers the degree, which stays >= 0
-        ensures=["INV(self)", "deg(self) <= old(deg(self))", "tolerance >= 0"],
+        ensures=["INV(self)", "deg(self) <= old(deg(self))", "tolerance >= 0"] + KIND_KEPT,
         raises={"AssertionError": "tolerance < 0"}, exc_ensures=ATOMIC, canary="deg(self) > old(deg(self))")
 
 
@@ -1062,6 +1076,8 @@ def h_norm_scalar(eng, st, args, kw, node, exits):
     x = args[0]
     if not isinstance(x, Num):
         raise E.Unsupported("norm of a nested sequence")
+    if len(args) > 1:
+        eng.vc(st, args[1].z == 0, "call:norm:L==0@L%d" % node.lineno, node.lineno)     # NORM_SCALAR is proved for the infinity norm only
     return Num(z3.If(x.real() >= 0, x.real(), -x.real()), False)
 
 
@@ -1185,3 +1201,91 @@ for _c, _m, _q, _v in _ops:
     _c.tag = _c.name[_c.name.index("["):] if "[" in _c.name else ""
     _c.name = _c.name
 ALL += _ops
+
+
+# ======================================================================================
+# Call-site contracts of functions that are under contract themselves.  For every handler registered (in any contract above) under one of these
+# keys, pyvc/conform.py discharges that the handler assumes nothing the callee's contract did not prove (pre / exc / post / kind obligations):
+# the facts a caller's proof takes from such a call are then consequences of obligations discharged from the callee's source, not assumptions.
+# ======================================================================================
+# key -> (prefix of the callee's contract names, number of positional arguments given to the handler, parameters passed by keyword)
+CALLEE_OF = {
+    "setattr:BaseCurve.ctrlpoints": ("curves.BaseCurve.ctrlpoints.setter", None, None),
+    "setattr:BaseCurve.weights": ("curves.BaseCurve.weights.setter", None, None),
+    "method:BaseCurve.update": ("curves.BaseCurve.update", 2, None),
+    "setattr:BaseCurve.knotvector": ("curves.BaseCurve.knotvector.setter", None, None),
+    "method:BaseCurve.apply": ("curves.BaseCurve.apply", None, None),
+    "method:BaseCurve.degree_increase": ("curves.Curve.degree_increase", 2, None),
+    "method:BaseCurve.degree_decrease": ("curves.Curve.degree_decrease", 3, None),
+    "method:BaseCurve.knot_remove": ("curves.Curve.knot_remove", 2, None),
+    "method:BaseCurve.knot_clean": ("curves.Curve.knot_clean", 1, ["tolerance"]),
+    "method:BaseCurve.degree_clean": ("curves.Curve.degree_clean", 1, ["tolerance"]),
+    "method:BaseCurve.fit_points": ("curves.Curve.fit_points", None, None),
+    "func:copy": ("curves.BaseCurve.__deepcopy__", 1, None),
+    "unary:USub:BaseCurve": ("curves.BaseCurve.__neg__", None, None),
+    "binop:Add:BaseCurve": ("curves.BaseCurve.__add__[scalar]", None, None),
+    "method:BaseCurve.__add__": ("curves.BaseCurve.__add__[scalar]", None, None),
+    "rbinop:Add:BaseCurve": ("curves.BaseCurve.__radd__[scalar]", None, None),
+    "func:norm": ("curves.norm[scalar]", None, None),
+}
+# handlers that are ASSUMPTIONS by design (not derived from the callee's contract): listed, never counted as discharged
+ASSUMED_HANDLERS = {"h_set_weights[assume_no_roots]": "A11: the zero test of the weight setter passes for weights produced by the library from admissible weights"}
+
+
+def callsite_pairs(contracts=None):
+    """(key, handler, callee contract, module, qualname, variant, nargs, kw) for every distinct handler the given contracts (default: all)
+    register under a key of CALLEE_OF."""
+    out, seen, assumed = [], set(), []
+    for c, _m, _q, _v in (contracts if contracts is not None else ALL):
+        for key, spec in c.calls.items():
+            if key not in CALLEE_OF:
+                continue
+            h = spec._h
+            if key == "func:copy" and h is not h_copy_any:
+                continue                # copy(knotvector): another callee (facade2: KnotVector.__deepcopy__)
+            if (key, id(h)) in seen:
+                continue
+            seen.add((key, id(h)))
+            if getattr(h, "assumption", None):
+                assumed.append((key, h.assumption))
+                continue
+            prefix, nargs, kw = CALLEE_OF[key]
+            hit = [(cc, m, q, v) for cc, m, q, v in ALL if cc.name.startswith(prefix)]
+            assert hit, prefix
+            for cc, m, q, v in hit:
+                out.append(("%s via %s" % (key, getattr(h, "__name__", "handler")), h, cc, m, q, v, nargs, kw))
+    return out, assumed
+
+
+CONFORM, CONFORM_ASSUMED = callsite_pairs()
+
+
+def callsite_tasks(selected):
+    """Conformance tasks for every call-site contract the selected contracts may use (their `calls` tables)."""
+    from ..pyvc.driver import verify_callsite
+    return [(verify_callsite, pair) for pair in callsite_pairs(selected)[0]]
+
+
+def with_callees(quals):
+    """The contracts of the given functions and, transitively, of every function under contract that their `calls` tables name: a caller's proof
+    rests on the callee's contract, so a check that verifies the caller verifies the callee (and the call-site contract between them) as well."""
+    chosen = [t for t in ALL if t[2] in quals]
+    names = {t[0].name for t in chosen}
+    grew = True
+    while grew:
+        grew = False
+        for c, _m, _q, _v in list(chosen):
+            for key, spec in c.calls.items():
+                if key in CALLEE_OF and not (key == "func:copy" and spec._h is not h_copy_any):
+                    for t in ALL:
+                        if t[0].name.startswith(CALLEE_OF[key][0]) and t[0].name not in names:
+                            names.add(t[0].name)
+                            chosen.append(t)
+                            grew = True
+    return chosen
+
+
+def tasks_for(quals):
+    from ..pyvc.driver import verify
+    chosen = with_callees(quals)
+    return [(verify, t) for t in chosen] + callsite_tasks(chosen)
